@@ -566,11 +566,15 @@ class MemorizedFunc(Logger):
         # 3-tuple property containing: the function source code, source file,
         # and first line of the code inside the source file
         if hasattr(self.func, "__code__"):
+            # Keep a reference to the code object rather than its id: the id
+            # of a code object that has been replaced and freed can be reused
+            # by the next one.
             if self._func_code_id is None:
-                self._func_code_id = id(self.func.__code__)
-            elif id(self.func.__code__) != self._func_code_id:
+                self._func_code_id = self.func.__code__
+            elif self.func.__code__ is not self._func_code_id:
                 # Be robust to dynamic reassignments of self.func.__code__
                 self._func_code_info = None
+                self._func_code_id = self.func.__code__
 
         if self._func_code_info is None:
             # Cache the source code of self.func . Provided that get_func_code
